@@ -5,6 +5,7 @@ package c04
 import (
 	"encoding/hex"
 	"fmt"
+	"go.uber.org/zap"
 	"os"
 	"runtime"
 	"testing"
@@ -86,6 +87,8 @@ func targets() []target {
 		{name: "tls", cfg: `{"sni":["example.com","*.example.org"],"alpn":["h2"]}`, gens: g(mx.GenTLS)},
 		{name: "quic", udp: true, gens: g(mx.GenQUIC), slow: true},
 		{name: "quic", gens: g(mx.GenQUIC)},
+		{name: "quic", udp: true, cfg: `{"sni":["a.example.com"]}`, gens: g(mx.GenQUIC), slow: true},
+		{name: "quic", udp: true, cfg: `{"alpn":["h3"]}`, gens: g(mx.GenQUIC), slow: true},
 		{name: "not", cfg: `[{"ssh":{}},{"postgres":{},"tls":{}}]`, gens: g(mx.GenSSH, mx.GenPostgres, mx.GenTLS)},
 		{name: "not", cfg: `[{"rdp":{},"winbox":{}}]`, gens: g(mx.GenRDP, mx.GenWinbox)},
 		{name: "local_ip", cfg: `{"ranges":["10.0.0.0/8"]}`, gens: g(mx.GenSSH)},
@@ -181,7 +184,9 @@ func benign(tg target, m mxMatcher) uint64 {
 }
 
 func drawInput(t *rapid.T, tg target) ([]byte, string) {
-	switch k := rapid.IntRange(0, 9).Draw(t, "inputKind"); {
+	switch k := rapid.IntRange(0, 10).Draw(t, "inputKind"); {
+	case k == 10:
+		return mx.GenLines(t), "short-lines"
 	case k == 0:
 		return rapid.SliceOfN(rapid.Byte(), 0, 300).Draw(t, "noise"), "noise"
 	case k == 1:
@@ -225,4 +230,77 @@ func TestMatchersNoPanicBoundedAlloc(t *testing.T) {
 			})
 		})
 	}
+}
+
+// A connection is shown to the matchers of several routes, one after the other. Whatever a matcher keeps about the
+// connection (the http matcher keeps the parsed request, others may keep more) must not make a later one panic.
+func TestSeveralMatchersOneConnection(t *testing.T) {
+	mx.LoadQUICSamples()
+	tgs := targets()
+	ms := make([]mxMatcher, len(tgs))
+	for i, tg := range tgs {
+		m, err := mx.NewMatcher(tg.name, tg.cfg)
+		if err != nil {
+			t.Fatalf("provision %s: %v", tg.label(), err)
+		}
+		ms[i] = m
+	}
+	byName := map[string][]int{}
+	for i, tg := range tgs {
+		byName[tg.name] = append(byName[tg.name], i)
+	}
+	quicRuns := 0
+	rapid.Check(t, func(rt *rapid.T) {
+		first := rapid.IntRange(0, len(tgs)-1).Draw(rt, "first")
+		// routes that tell QUIC clients apart (by server name, by ALPN) all consult a quic matcher: a share of the
+		// cases is reserved for them, as the matcher is too slow to get there by chance
+		quicCase := quicRuns < 150 && rapid.IntRange(0, 5).Draw(rt, "quicCase") == 0
+		if quicCase {
+			q := byName["quic"]
+			first = q[rapid.IntRange(0, len(q)-1).Draw(rt, "quicFirst")]
+		}
+		seq := []int{first}
+		for i := rapid.IntRange(1, 3).Draw(rt, "more"); i > 0; i-- {
+			if same := byName[tgs[first].name]; quicCase || rapid.Bool().Draw(rt, "sameKind") {
+				seq = append(seq, same[rapid.IntRange(0, len(same)-1).Draw(rt, "sameIdx")])
+			} else {
+				seq = append(seq, rapid.IntRange(0, len(tgs)-1).Draw(rt, "otherIdx"))
+			}
+		}
+		for _, i := range seq {
+			if tgs[i].name == "quic" {
+				quicRuns++
+				if quicRuns > 150 {
+					return // each attempt spins up a QUIC listener
+				}
+				break
+			}
+		}
+		in, class := drawInput(rt, tgs[first])
+		var labels []string
+		for _, i := range seq {
+			labels = append(labels, tgs[i].label())
+		}
+		journalInput(fmt.Sprint(labels), in)
+		under := hx.NewScriptConn(nil, hx.EndEOF)
+		if tgs[first].udp {
+			under.Local, under.Remote = mx.UDPLocal, mx.UDPRemote
+		} else {
+			under.Local, under.Remote = mx.TCPLocal, mx.TCPRemote
+		}
+		cx := layer4.VerifNewConnection(under, in, zap.NewNop())
+		for k, i := range seq {
+			var pan any
+			func() {
+				defer func() { pan = recover() }()
+				_, _ = layer4.MatcherSet{ms[i]}.Match(cx)
+			}()
+			if pan != nil {
+				hx.Fail(rt, "C04", "panic/after-other-matchers/"+tgs[i].name, "matcher %s panicked as number %d of the matchers %v consulted for one connection: %v\ninput(%d)=%s",
+					tgs[i].label(), k+1, labels, pan, len(in), hex.EncodeToString(clip(in, 600)))
+				return
+			}
+		}
+		hx.Case(hx.Hash(fmt.Sprint(labels), in), class != "noise", "C04/several-matchers-one-connection", "C04/"+class)
+	})
 }
